@@ -11,8 +11,9 @@ Everything is about Model/C16 instantiated with ℝ; helper lemmas are in Proofs
 `Aligned`, `dist3`, `relOrientation`) in Spec/C16.lean.  `Rotation.from_rotvec(..).as_matrix()` is the Rodrigues stand-in
 `rotVecToMat` (trusted: scipy implements it up to rounding).
 -/
-import CfVerif.Proofs.C16Align
+import CfVerif.Proofs.C16Unique
 import CfVerif.Proofs.C16Scale
+import CfVerif.Proofs.C16Heap
 namespace CfVerif.C16
 open CfVerif
 
@@ -169,6 +170,53 @@ theorem x_samples_on_positive_axis (T : Pose ℝ) (hT : T.IsProperRigid) (origin
     ∀ c ∈ cs, T.rotateTranslate (origin.add (u.smul c)) = ⟨dist3 origin (origin.add (u.smul c)), 0, 0⟩ :=
   x_samples_image hT.1 origin u cs hne hpos xyPlane hal hmean
 
+/-- **the alignment is unique.**  Two proper rigid transformations with zero residual on the same samples, which both
+put the mean of the x-axis samples on the non-negative X axis (one of them strictly) and a point `g` (the first base
+station) at Z ≥ 0 (one of them strictly), are EQUAL — provided some plane sample is off the X axis. -/
+theorem aligned_unique (T1 T2 : Pose ℝ) (hT1 : T1.IsProperRigid) (hT2 : T2.IsProperRigid) (origin : Vec3 ℝ)
+    (xAxis xyPlane : List (Vec3 ℝ)) (hne : xAxis ≠ []) (hA1 : Aligned T1 origin xAxis xyPlane)
+    (hA2 : Aligned T2 origin xAxis xyPlane)
+    (hx1 : 0 < (T1.rotateTranslate (meanVec xAxis)).x) (hx2 : 0 ≤ (T2.rotateTranslate (meanVec xAxis)).x)
+    (p : Vec3 ℝ) (hp : p ∈ xyPlane) (hp1 : (T1.rotateTranslate p).y ≠ 0)
+    (g : Vec3 ℝ) (hg1 : 0 < (T1.rotateTranslate g).z) (hg2 : 0 ≤ (T2.rotateTranslate g).z) : T1 = T2 := by
+  have m1 := mean_on_axis (xAxis.map T1.rotateTranslate)
+    (by intro v hv; obtain ⟨x, hx, rfl⟩ := List.mem_map.mp hv; exact hA1.2.1 x hx)
+  have m2 := mean_on_axis (xAxis.map T2.rotateTranslate)
+    (by intro v hv; obtain ⟨x, hx, rfl⟩ := List.mem_map.mp hv; exact hA2.2.1 x hx)
+  rw [← mean_image T1 xAxis hne] at m1
+  rw [← mean_image T2 xAxis hne] at m2
+  exact aligned_unique_aux hT1 hT2 hA1.1 hA2.1 m1 hx1 m2 hx2 (hA1.2.2 p hp) hp1 (hA2.2.2 p hp) hg1 hg2
+
+/-- **after convergence `align` returns THE alignment** (so every base station gets its true pose, above the floor if it
+truly is).  If the residual at the optimiser's answer is zero and there is a true alignment `Tstar` of the solved system —
+a proper rigid map with zero residual that has all x-axis samples at X > 0, some plane sample off the X axis and the
+first base station above the floor — then the transformation returned by `align` IS `Tstar`, whether or not the raw
+answer was mirror-flipped. -/
+theorem align_recovers_true_alignment (lsq : Lsq ℝ) (origin : Vec3 ℝ) (xAxis xyPlane : List (Vec3 ℝ))
+    (bsPoses result : List (Nat × Pose ℝ)) (T raw Tstar : Pose ℝ)
+    (h : align lsq origin xAxis xyPlane bsPoses = .ok (result, T))
+    (hraw : findTransformation lsq origin xAxis xyPlane = .ok raw)
+    (hconv : ∃ r, calcResidualOf raw origin xAxis xyPlane = .ok r ∧ ∀ c ∈ r, c = 0)
+    (hTs : Tstar.IsProperRigid) (hAs : Aligned Tstar origin xAxis xyPlane)
+    (hxs : ∀ x ∈ xAxis, 0 < (Tstar.rotateTranslate x).x)
+    (hp : ∃ p ∈ xyPlane, (Tstar.rotateTranslate p).y ≠ 0)
+    (hb : ∀ kb ∈ bsPoses.head?, 0 < (Tstar.rotateTranslate kb.2.t).z) :
+    T = Tstar ∧ result = bsPoses.map (fun kv => (kv.1, Tstar.rotateTranslatePose kv.2)) := by
+  obtain ⟨hTp, hres⟩ := align_applies_one_rigid_map lsq origin xAxis xyPlane bsPoses result T h
+  obtain ⟨hTa, hTx, hTz⟩ := align_exact_of_zero_residual lsq origin xAxis xyPlane bsPoses result T raw h hraw hconv
+  obtain ⟨_, x, xs', k, b, bs', _, _, hxs', hbs', _, _⟩ :=
+    align_ok gen_deflip.1 gen_deflip.2.1 gen_deflip.2.2.1 gen_deflip.2.2.2 h
+  have hne : xAxis ≠ [] := by rw [hxs']; simp
+  obtain ⟨p, hpm, hpy⟩ := hp
+  have hmean : 0 < (Tstar.rotateTranslate (meanVec xAxis)).x := by
+    rw [mean_image Tstar xAxis hne]
+    apply mean_x_pos _ (by simpa using hne)
+    intro v hv; obtain ⟨x', hx', rfl⟩ := List.mem_map.mp hv; exact hxs x' hx'
+  have hb' : (k, b) ∈ bsPoses.head? := by rw [hbs']; simp
+  have e : Tstar = T := aligned_unique Tstar T hTs hTp origin xAxis xyPlane hne hAs hTa hmean hTx p hpm hpy b.t
+    (hb _ hb') (hTz _ hb')
+  exact ⟨e.symm, by rw [hres, e]⟩
+
 /-! ## Scaling -/
 
 /-- **scale_uniform.**  `_scale_system` returns, for every base station id (same ids, same order) and every Crazyflie pose,
@@ -211,6 +259,48 @@ theorem intersection_on_plane_and_ray (cart : Vec3 ℝ) (bs cf : Pose ℝ) :
   ⟨calcIntersectionPoint_eq gen_intersection.1 cart bs cf,
     fun h => ⟨intersection_on_plane cart bs cf h, fun s hs => intersection_unique cart bs cf h s hs⟩⟩
 
+/-! ## Neither operation modifies its inputs -/
+
+/-- **inputs_unmodified (scaler, object level).**  Run `_scale_system` on ANY heap of Pose objects and arrays, with any
+sharing between them (the same Pose passed twice, two Poses sharing an array, …).  Then every array that existed before
+is still there with the same content, every Pose object that existed before still refers to the same two arrays
+(the old heap is a prefix of the new one: copy-then-REBIND never writes into existing storage), and every returned Pose
+is a fresh object. -/
+theorem scale_inputs_unmodified (h h' : Heap ℝ) (bs rb : List (Nat × Nat)) (cf rc : List Nat) (f : ℝ)
+    (hs : scaleSystemH h bs cf f = .ok (h', rb, rc)) :
+    Heap.Extends h h' ∧ (∀ q ∈ rb.map (·.2) ++ rc, h.objs.length ≤ q) ∧
+    (∀ p pose, h.deref p = some pose → h'.deref p = some pose) := by
+  obtain ⟨hf, _, _, _, hfresh, _, hval⟩ := scaleSystemH_spec hs
+  refine ⟨prefix_of_frame hf, hfresh, ?_⟩
+  intro p pose hd
+  obtain ⟨o, ho, _, _⟩ := deref_some hd
+  have hp : p < h.objs.length := by
+    rcases Nat.lt_or_ge p h.objs.length with hlt | hge
+    · exact hlt
+    · rw [List.getElem?_eq_none_iff.mpr hge] at ho; exact absurd ho (by simp)
+  exact hval p hp pose hd
+
+/-- the object-level model refines the value-level one: the returned objects carry the ids of the input in order, and the
+value of each returned Pose is the input Pose with the same rotation and the translation times the factor -/
+theorem scale_heap_refines_value (h h' : Heap ℝ) (bs rb : List (Nat × Nat)) (cf rc : List Nat) (f : ℝ)
+    (hs : scaleSystemH h bs cf f = .ok (h', rb, rc)) :
+    rb.map (·.1) = bs.map (·.1) ∧ rb.length = bs.length ∧ rc.length = cf.length ∧
+    ∀ pq ∈ (bs.map (·.2)).zip (rb.map (·.2)) ++ cf.zip rc, ∀ pose, h.deref pq.1 = some pose →
+      h'.deref pq.2 = some (pose.scale f) := by
+  obtain ⟨_, hk, hl1, hl2, _, hv, _⟩ := scaleSystemH_spec hs
+  exact ⟨hk, hl1, hl2, hv⟩
+
+/- `align`: at the value level the model is a pure function of its arguments; at the source level the aligner stores into
+nothing but its fresh `result` dict and calls no mutating method on its arguments (`gen_aligner_pure`), and the Pose methods
+it uses build new arrays (`gen_pose`), so there is nothing for a heap model to add.  search() checks it on the real objects. -/
+
+/-- CONTRAST (not the code): had `Pose.scale` been the in-place `self._t_vec *= scale`, the shallow `copy.copy` would not
+protect the caller — scaling the copy changes the value of the input Pose.  The heap model distinguishes the two. -/
+theorem inplace_scale_would_modify_input :
+    ∃ h1 q h2, (⟨[.mat Mat3.one, .vec ⟨1, 2, 3⟩], [⟨0, 1⟩]⟩ : Heap ℝ).copyPose 0 = .ok (h1, q) ∧
+      h1.scalePoseInPlace q 2 = .ok h2 ∧ h2.deref 0 = some ⟨Mat3.one, ⟨1 * 2, 2 * 2, 3 * 2⟩⟩ :=
+  ⟨_, _, _, rfl, rfl, rfl⟩
+
 /-! ## Non-vacuity: concrete instances of the hypotheses -/
 
 /-- the identity has zero residual on samples that are already aligned -/
@@ -233,5 +323,11 @@ example : (⟨3, 4, 0⟩ : Vec3 ℝ).norm ≠ 0 := by
 /-- a ray straight down from 2 m onto a level deck is not parallel to it -/
 example : ((⟨Mat3.one, ⟨0, 0, 2⟩⟩ : Pose ℝ).R.mulVec ⟨0, 0, -1⟩).dot (deckNormalOf ⟨Mat3.one, Vec3.zero⟩) ≠ 0 := by
   simp [Mat3.mulVec, Mat3.one, Vec3.dot, deckNormalOf]
+
+/-- two Crazyflie entries that are the SAME Pose object, which also shares its translation array with a base station:
+`_scale_system` returns three fresh objects with three fresh translation arrays and the old heap is untouched -/
+example : scaleSystemH (⟨[.mat Mat3.one, .vec ⟨1, 2, 3⟩], [⟨0, 1⟩, ⟨0, 1⟩]⟩ : Heap ℝ) [(7, 0)] [1, 1] 2 =
+    .ok (⟨[.mat Mat3.one, .vec ⟨1, 2, 3⟩, .vec ⟨1 * 2, 2 * 2, 3 * 2⟩, .vec ⟨1 * 2, 2 * 2, 3 * 2⟩, .vec ⟨1 * 2, 2 * 2, 3 * 2⟩],
+      [⟨0, 1⟩, ⟨0, 1⟩, ⟨0, 2⟩, ⟨0, 3⟩, ⟨0, 4⟩]⟩, [(7, 2)], [3, 4]) := rfl
 
 end CfVerif.C16
